@@ -23,13 +23,10 @@ CONSTANT Dev
 (* switches of defects repaired in /repo by fix: commits are no longer part of Pinned:            *)
 (*   "back_no_discriminator" (F-C17-1)                                                             *)
 Pinned == {"basepath_needs_host",        \* F-C17-4   servers only when there is a host
-           "empty_paths_unset",          \* F-C17-13  paths set only when there is a path
            "ap_refs_only",               \* F-C17-6/7/8 below additionalProperties only direct references are converted
            "back_ap_unconverted",        \* F-C17-2
            "back_form_required_in_property", \* F-C17-3
            "back_shared_form_is_definition", \* F-C17-5
-           "back_form_no_format",        \* F-C17-9
-           "back_http_https_only",       \* F-C17-10
            "back_binary_is_parameter",   \* F-C17-11  every binary string schema is taken for a form file parameter
            "back_json_only",             \* F-C17-12
            "back_body_name_search_first"} \* F-C17-15  a free name among body / requestBody is demanded even when x-originalParamName is there
@@ -43,10 +40,14 @@ Pinned == {"basepath_needs_host",        \* F-C17-4   servers only when there is
 (*   "shared_form_key_hidden_by_definition" F-C17-20 a shared form parameter was kept in   *)
 (*                               components.schemas under its key, where the definition of *)
 (*                               that key replaced it (now converted where it is used)     *)
+(*   "empty_paths_unset"         F-C17-13 paths was set only when there was a path         *)
+(*   "back_form_no_format"       F-C17-9  the format of a form parameter was not copied    *)
+(*   "back_http_https_only"      F-C17-10 only http / https server URLs gave a scheme      *)
 (* (F-C17-17, the x-formData-name marker written into ToV3's input, was an edit of the    *)
 (* input only and never had a switch: the model has no notion of the input changing)      *)
 Repaired == {"back_no_discriminator", "back_binary_param_panics", "back_binary_param_type_format_only",
-             "back_input_nullable_reset", "shared_form_key_hidden_by_definition"}
+             "back_input_nullable_reset", "shared_form_key_hidden_by_definition",
+             "empty_paths_unset", "back_form_no_format", "back_http_https_only"}
 
 RefV(o) == IF o.m["$ref"].t = "str" THEN o.m["$ref"].s ELSE "?"
 RefO(r) == O(KV("$ref", S(r)))
@@ -456,6 +457,10 @@ FromV3Doc(d3, hosts, bases) ==
         @@ If(Has(comps, "securitySchemes"),
               KV("securityDefinitions", O([n \in Keys(Sub(comps, "securitySchemes")) |-> FromV3Sec(comps.m["securitySchemes"].m[n])])))
         @@ If(Has(d3, "security"), KV("security", Opt(d3, "security"))))
+
+(* openapi2.T.MarshalJSON (openapi2/openapi2.go:56): how the library writes an OpenAPI 2 document it has read.  The one   *)
+(* place where that is not the document itself: an empty `paths` object is left out.                                     *)
+Written2(d) == IF Has(d, "paths") /\ d.m["paths"] = EmptyO THEN O([k \in DOMAIN d.m \ {"paths"} |-> d.m[k]]) ELSE d
 
 FromV3Panics(b) == HasKeyDeep(b, "$panic")
 (* the outcomes FromV3 may have: when one operation makes it panic and another makes it return an error, *)
